@@ -727,12 +727,12 @@ def run(eng, rep):
     rep.explain("Also decided: rho is never below rhoend (interval reasoning over reduce_rho and the parameter table, C10-2b), hence 'rho has reached rhoend' is built at equality; on every path to the one result constructor a success flag implies a tested-finite objective (typestate, C10-6); the tested value may be accumulated in a local (every reaching definition expanded, C10-1); tested means are over the samples run (C10-1c).")
     rep.not_decided += ["whether soln.obj is the small value when averaging noise re-orders points",
                         ]
-    rule_messages(eng, rep)
+    rep.guarded(rule_messages, eng, rep)
     # 'rho has reached rhoend' is built under not (rho > rhoend) (C10-2); together with rho >= rhoend (interval reasoning over reduce_rho and the parameter
     # table, shared with C18-8) the lower bound *equals* rhoend at that point
     from .c18 import rule_rho_between_rhoend_and_rhobeg
-    rule_rho_between_rhoend_and_rhobeg(eng, rep, rule="C10-2b.rho-is-never-below-rhoend")
-    rule_success_needs_finite_objective(eng, rep)
-    rule_nruns(eng, rep)
+    rep.guarded(rule_rho_between_rhoend_and_rhobeg, eng, rep, rule="C10-2b.rho-is-never-below-rhoend")
+    rep.guarded(rule_success_needs_finite_objective, eng, rep)
+    rep.guarded(rule_nruns, eng, rep)
     from .records import rule_mean_over_samples_run
-    rule_mean_over_samples_run(eng, rep, "C10-1c.tested-value-is-the-mean-over-the-samples-actually-run")
+    rep.guarded(rule_mean_over_samples_run, eng, rep, "C10-1c.tested-value-is-the-mean-over-the-samples-actually-run")
